@@ -119,7 +119,7 @@ Definition exactly_one_b (f b : setting) (m : mode) (v4 o1 o2 o3 o4 bpf wg wg6 i
   implb (andb (supported f b) (family_ok m v4 ipv6))
     (let w := mkw m v4 o1 o2 o3 o4 bpf wg wg6 ipv6 in
      let felix := felix_programs G (setting_name f) w in
-     let bird := bird_programs G (covers b) m in
+     let bird := bird_programs G (covers b) w in
      andb (andb (xorb felix bird) (implb (is_class CVxlan m) felix)) (Bool.eqb felix (felix_should_program f m))).
 
 Definition exactly_one_all : bool :=
@@ -150,6 +150,28 @@ Proof.
   exact (allb_spec _ H11 ipv6).
 Qed.
 
+(* Ownership does not depend on the pool's other attributes - disabled (which only stops NEW allocations: existing
+   workloads still need their routes), natOutgoing, disableBGPExport - nor on whether Felix learnt the pool on the start-up
+   path (handleAPIPool) or from the syncer (handleModelPool): on both sides the outcome is that of the bare pool. *)
+Lemma pool_in_sets_strip : forall w, pool_in_sets G w = pool_in_sets G (strip w).
+Proof.
+  intros [m v4 d n b api o io vo bpf wg wg6 ipv6]; unfold strip; simpl.
+  destruct m, v4, d, n, b, api; vm_compute; reflexivity.
+Qed.
+
+Theorem c28_pool_attributes_irrelevant :
+  forall pcr p w,
+    felix_programs G pcr w = felix_programs G pcr (strip w) /\
+    bird_programs G p w = bird_programs G p (strip w).
+Proof.
+  intros pcr p w; split.
+  - unfold felix_programs, felix_view_of. rewrite pool_in_sets_strip.
+    destruct w as [m v4 d n b api o io vo bpf wg wg6 ipv6]; reflexivity.
+  - destruct w as [m v4 d n b api o io vo bpf wg wg6 ipv6], p as [p1 p2]; unfold strip; simpl.
+    destruct m, v4, d, n, b, p1, p2; vm_compute; reflexivity.
+Qed.
+Print Assumptions c28_pool_attributes_irrelevant.
+
 (* THE PROPERTY.  For every raw Felix value and every BGPConfiguration state that is absent, one of the four documented
    values or a string neither side recognises, whenever the two resolve (absent / unrecognised -> default) to a supported
    pairing: for every pool mode and family, whatever other pools exist and whether BPF / WireGuard are on, exactly one of
@@ -162,7 +184,7 @@ Theorem c28_exactly_one :
     let bs := spec_resolve bird_spec_default (braw_value b) in
     supported f bs = true ->
     let felix := felix_programs G (felix_resolve G fraw) w in
-    let bird := bird_programs G (bird_policy G b) (w_mode w) in
+    let bird := bird_programs G (bird_policy G b) w in
     xorb felix bird = true /\
     (class_of (w_mode w) = CVxlan -> felix = true) /\
     felix = felix_should_program f (w_mode w).
@@ -171,7 +193,8 @@ Proof.
   subst felix bird.
   rewrite (felix_resolve_spec fraw Hf), (bird_policy_spec b Hb).
   fold f bs.
-  destruct w as [m v4 [[[o1 o2] o3] o4] io vo bpf wg wg6 ipv6].
+  destruct (c28_pool_attributes_irrelevant (setting_name f) (covers bs) w) as [Ef Eb]; rewrite Ef, Eb; clear Ef Eb.
+  destruct w as [m v4 d n bx api [[[o1 o2] o3] o4] io vo bpf wg wg6 ipv6].
   destruct Hw as [Hio [Hvo Hfam]]; simpl in Hio, Hvo, Hfam; subst io vo.
   pose proof (exactly_one_fin f bs m v4 o1 o2 o3 o4 bpf wg wg6 ipv6) as H.
   unfold exactly_one_b in H; rewrite Hs in H.
@@ -179,10 +202,9 @@ Proof.
   { unfold family_ok; destruct v4; [reflexivity|]. destruct (Hfam eq_refl) as [H6 Hc]; rewrite H6; simpl.
     unfold is_class; destruct (class_of m); try reflexivity; exfalso; apply Hc; reflexivity. }
   rewrite Hfo in H; simpl andb in H; simpl implb in H; cbv zeta in H.
-  change (mkw m v4 o1 o2 o3 o4 bpf wg wg6 ipv6) with
-    {| w_mode := m; w_v4 := v4; w_others := (o1, o2, o3, o4); w_ipip_ovr := None; w_vxlan_ovr := None;
-       w_bpf := bpf; w_wg := wg; w_wg6 := wg6; w_ipv6 := ipv6 |} in H.
-  simpl w_mode.
+  unfold strip; simpl w_mode; simpl w_v4; simpl w_others; simpl w_ipip_ovr; simpl w_vxlan_ovr;
+    simpl w_bpf; simpl w_wg; simpl w_wg6; simpl w_ipv6.
+  fold (mkw m v4 o1 o2 o3 o4 bpf wg wg6 ipv6).
   apply andb_true_iff in H; destruct H as [H Howner]; apply andb_true_iff in H; destruct H as [Hx Hv].
   split; [assumption|]; split.
   - intros Hc; unfold is_class in Hv; rewrite Hc in Hv; simpl in Hv; assumption.
@@ -196,11 +218,11 @@ Theorem c28_unsupported_pairings_break :
   forall f b, supported f b = false ->
     exists m, In m all_modes /\
       xorb (felix_programs G (setting_name f) (mkw m true false false false false false false false true))
-           (bird_programs G (covers b) m) = false.
+           (bird_programs G (covers b) (mkw m true false false false false false false false true)) = false.
 Proof.
   assert (H : allsetting (fun f => allsetting (fun b => orb (supported f b)
                (existsb (fun m => negb (xorb (felix_programs G (setting_name f) (mkw m true false false false false false false false true))
-                                             (bird_programs G (covers b) m))) all_modes))) = true) by (vm_compute; reflexivity).
+                                             (bird_programs G (covers b) (mkw m true false false false false false false false true)))) all_modes))) = true) by (vm_compute; reflexivity).
   intros f b Hs. pose proof (allsetting_spec _ (allsetting_spec _ H f) b) as E; cbv beta in E.
   rewrite Hs in E; rewrite Bool.orb_false_l in E. apply existsb_exists in E; destruct E as [m [Hin Hm]].
   exists m; split; [assumption|]. apply negb_true_iff in Hm; assumption.
@@ -235,10 +257,10 @@ Theorem c28_non_enum_values_refuted :
   (* Felix "none", BGPConfiguration absent: an IPIP pool is programmed by nobody *)
   (supported (spec_resolve felix_spec_default (Some "none")) (spec_resolve bird_spec_default None) = true /\
    felix_programs G (felix_resolve G (Some "none")) (mkw MIpip true false false false false false false false true) = false /\
-   bird_programs G (bird_policy G BUnset) MIpip = false) /\
+   bird_programs G (bird_policy G BUnset) (mkw MIpip true false false false false false false false true) = false) /\
   (* Felix "enabled", BGPConfiguration absent: an unencapsulated pool is programmed by both *)
   (supported (spec_resolve felix_spec_default (Some "enabled")) (spec_resolve bird_spec_default None) = true /\
    felix_programs G (felix_resolve G (Some "enabled")) (mkw MNone true false false false false false false false true) = true /\
-   bird_programs G (bird_policy G BUnset) MNone = true).
+   bird_programs G (bird_policy G BUnset) (mkw MNone true false false false false false false false true) = true).
 Proof. vm_compute; repeat split; reflexivity. Qed.
 Print Assumptions c28_non_enum_values_refuted.
